@@ -13,11 +13,15 @@ Rec == ndJsonDeserialize(IOEnv.TRACE)
 
 VARIABLES order,    \* Seq of <<kind, name>> as last written
           placedI,  \* set of <<kind, name>>
+          loadedAll,\* every direct child of the MODULE as loaded (also optional singletons, IF_DATA, USER_RIGHTS,
+                    \* which the placement model leaves out): Seq of <<kind, name>> in written order
           l
-ivars == <<order, placedI, l>>
+ivars == <<order, placedI, loadedAll, l>>
 Ev == Rec[l]
 
 IsSubOrder(old, new) == SelectSeq(new, LAMBDA x : x \in Range(old)) = old
+\* whatever was loaded from the file is placed: its relative order never changes (only sort() may change it)
+KeepsLoaded == "all" \notin DOMAIN Ev \/ IsSubOrder(loadedAll, Ev.all)
 
 \* map the recorded orders onto the vocabulary of Placement!IdealSortNew
 EEof(before) == [i \in 1..Len(before) |->
@@ -28,20 +32,24 @@ IdxIn(before, x) == CHOOSE i \in 1..Len(before) : before[i] = x
 ILoad == /\ l <= Len(Rec) /\ Ev.ev \in {"load", "state"}
          /\ order' = Ev.written
          /\ placedI' = IF Ev.ev = "load" THEN Range(Ev.written) ELSE Range(Ev.placed)
+         /\ loadedAll' = IF "all" \in DOMAIN Ev THEN Ev.all ELSE <<>>
          /\ l' = l + 1
 IInsert == /\ l <= Len(Rec) /\ Ev.ev \in {"push_new", "merge", "merge_in"}
            /\ ("panic" \in DOMAIN Ev => Ev.panic = FALSE)
            /\ IsSubOrder(order, Ev.written)
+           /\ KeepsLoaded
            /\ order' = Ev.written
-           /\ UNCHANGED placedI
+           /\ UNCHANGED <<placedI, loadedAll>>
            /\ l' = l + 1
 ISort == /\ l <= Len(Rec) /\ Ev.ev = "sort_new_items"
          /\ Ev.panic = FALSE
          /\ Len(Ev.written) = Len(order) /\ Range(Ev.written) = Range(order)
          /\ IdealSortNew(EEof(order), [i \in 1..Len(order) |-> i],
                          [j \in 1..Len(order) |-> IdxIn(order, Ev.written[j])])
+         /\ KeepsLoaded
          /\ order' = Ev.written
          /\ placedI' = placedI \cup {x \in Range(order) : \E p \in placedI : p[1] = x[1]}
+         /\ UNCHANGED loadedAll
          /\ l' = l + 1
 \* C14: sort() - same elements (comments may go), grouped by kind, ascending names in a kind
 ISortFull == /\ l <= Len(Rec) /\ Ev.ev = "sort"
@@ -51,13 +59,15 @@ ISortFull == /\ l <= Len(Rec) /\ Ev.ev = "sort"
                               [j \in 1..Len(Ev.written) |-> IdxIn(order, Ev.written[j])])
              /\ order' = Ev.written
              /\ placedI' = Range(Ev.written)
+             /\ loadedAll' = IF "all" \in DOMAIN Ev THEN Ev.all ELSE <<>>
              /\ l' = l + 1
 IWrite == /\ l <= Len(Rec) /\ Ev.ev = "write"
           /\ Ev.written = order
-          /\ UNCHANGED <<order, placedI>>
+          /\ KeepsLoaded
+          /\ UNCHANGED <<order, placedI, loadedAll>>
           /\ l' = l + 1
 
-IdealInit == order = <<>> /\ placedI = {} /\ l = 1
+IdealInit == order = <<>> /\ placedI = {} /\ loadedAll = <<>> /\ l = 1
              /\ E = <<>> /\ lists = [k \in Kinds |-> <<>>] /\ panic = FALSE /\ last = [op |-> "init"]
 IdealNext == (ILoad \/ IInsert \/ ISort \/ ISortFull \/ IWrite) /\ UNCHANGED vars
 IdealTraceSpec == IdealInit /\ [][IdealNext]_<<ivars, vars>>
